@@ -388,14 +388,16 @@ impl<H: HttpClient + Clone> StreamingCdnResolver<H> {
         // Validate archive hash before building URL
         InputValidator::validate_content_hash(archive_hash)?;
 
-        // Build index URL
-        let index_url = self.url_builder.build_url_for_product(
+        // The index of an archive lies next to it: <archive URL>.index
+        // (the URL builder only accepts the 32 hex digits of the hash itself)
+        let archive_url = self.url_builder.build_url_for_product(
             &self.config.cdn_host,
             &self.config.product,
             ContentType::Data, // Archives use data path
-            &format!("{archive_hash}.index"),
+            archive_hash,
             self.config.prefer_https,
         )?;
+        let index_url = format!("{archive_url}.index");
 
         // Validate the final URL for security
         InputValidator::validate_url(&index_url)?;
